@@ -2042,19 +2042,19 @@ class UTPM(Ring, RawAlgorithmsMixIn):
             assert len(y_shp[2:]) == 1
 
             out_shp = x_shp + y_shp[-1:]
-            out = cls(cls.__zeros__(out_shp, dtype = x.data.dtype))
+            out = cls(cls.__zeros__(out_shp, dtype = numpy.promote_types(x.data.dtype, y.data.dtype)))
             cls._outer( x.data, y.data, out = out.data)
 
         elif isinstance(x, UTPM) and isinstance(y, numpy.ndarray):
             x_shp = x.data.shape
             out_shp = x_shp + y.shape[-1:]
-            out = cls(cls.__zeros__(out_shp, dtype = x.data.dtype))
+            out = cls(cls.__zeros__(out_shp, dtype = numpy.promote_types(x.data.dtype, y.dtype)))
             cls._outer_non_utpm_y( x.data, y, out = out.data)
 
         elif isinstance(x, numpy.ndarray) and isinstance(y, UTPM):
             y_shp = y.data.shape
             out_shp = y_shp[:2] + x.shape[-1:] + y_shp[-1:]
-            out = cls(cls.__zeros__(out_shp, dtype = y.data.dtype))
+            out = cls(cls.__zeros__(out_shp, dtype = numpy.promote_types(x.dtype, y.data.dtype)))
             cls._outer_non_utpm_x( x, y.data, out = out.data)
 
         else:
@@ -2189,7 +2189,7 @@ class UTPM(Ring, RawAlgorithmsMixIn):
             # allocate temporary storage
             L0inv = numpy.linalg.inv(L0)
             U0inv = numpy.linalg.inv(U0)
-            dF    = numpy.zeros((N,N),dtype=float)
+            dF    = numpy.zeros((N,N),dtype=numpy.result_type(A.data.dtype, float))
 
             for d in range(1,D):
                 dF *= 0
@@ -2231,7 +2231,7 @@ class UTPM(Ring, RawAlgorithmsMixIn):
             # allocate temporary storage
             L0inv = numpy.linalg.inv(L.data[0,p])
             U0inv = numpy.linalg.inv(U.data[0,p])
-            dF    = numpy.zeros((N,N),dtype=float)
+            dF    = numpy.zeros((N,N),dtype=numpy.result_type(A.data.dtype, float))
 
             for d in range(1,D):
                 dF *= 0
@@ -2287,7 +2287,7 @@ class UTPM(Ring, RawAlgorithmsMixIn):
             # allocate temporary storage
             L0inv = numpy.linalg.inv(L.data[0,p])
             U0inv = numpy.linalg.inv(U.data[0,p])
-            dF    = numpy.zeros((N,N),dtype=float)
+            dF    = numpy.zeros((N,N),dtype=numpy.result_type(A.data.dtype, float))
 
             for d in range(1,D):
                 dF *= 0
